@@ -17,11 +17,22 @@ NumPy/einsum, and its hand-derived Gateaux derivative.  Oracles for `J, rhs = No
   * keyword parameters (float, DOF array, pre-interpolated DiscreteField, 2-D array, tuples on composite bases) on
     scalar / vector / composite / facet layouts; energies on H^2 elements, facet bases and vector x scalar layouts;
   * CompositeBasis (b0 * b1) as the basis: all oracles on it, and equality with the ElementComposite result under
-    np.concatenate(split_indices()).
+    np.concatenate(split_indices());
+  * magnitudes: in the grammar families (nl-scalar, nl-vector, nl-composite, nl-hess, nl-compositebasis, nl-energy,
+    nl-facet, nl-linear) the whole integrand (JAX side and both references) is multiplied by a factor
+    that rotates with the case index over 1, 2^-60, 2^20, 1, 2^-40 (the same problem in other physical units); all
+    tolerances are relative to the magnitude of the reference, so every oracle demands at 1e-18 what it demands at 1.
+    Family nl-magnitude adds the exact homogeneity J(c F) = c J(F), rhs(c F) = c rhs(F) against a second form of
+    the unscaled integrand (residual, energy and linear integrands; c a power of two) and meshes in other length
+    units (coordinates times 2^-20 / 2^-30) against -F and the hand-linearised matrix.
 Part B (helpers).  Every public function of skfem.helpers and skfem.autodiff.helpers on random 2x2 / 3x3
 tensors (0-3 trailing axes, contiguous and strided) against numpy.linalg / elementary NumPy definitions, JAX
 variant == NumPy variant for every shared name, and the field helpers (grad, div, curl, sym_grad, d, dd, ...)
-on synthetic DiscreteFields and on interpolated polynomial fields with known derivatives.
+on synthetic DiscreteFields and on interpolated polynomial fields with known derivatives.  Family
+helpers-fresh-process runs `import skfem.autodiff.helpers` -> every JAX helper on float64 data -> first
+assemble()/elemental() of the process -> every JAX helper again in a NEW interpreter (sys.executable -B, PYTHONPATH =
+$RV_REPO + harness) and judges the answers here: definitions, NumPy variant, float64 result type, and the first
+Jacobian / right-hand side of the process against the hand-linearised ordinary forms.
 
 Oracle pitfalls met while building this (the library is right, a naive oracle is not):
   * `jnp.exp(u)` on a JaxDiscreteField is a TypeError of JAX, not of the library: integrands apply jnp
@@ -39,6 +50,15 @@ Oracle pitfalls met while building this (the library is right, a naive oracle is
   * homogeneous integrands of degree >= 2 have J(0) = 0 exactly; max|J_fd| is then rounding noise (1e-22) and is
     no scale: the FD comparison carries the rounding floor 1e-11 max|F| / h as absolute term.
   * `COOData.tolocal()[c, j, i]` is (test i, trial j) for every form of the library (BilinearForm too).
+  * magnitudes: a factor that is a power of two scales every floating-point operation of both sides exactly, so a
+    case at 2^-60 is the bit-for-bit scaled image of the case at 1 (observed: J(c F) == c J(F) bitwise); a factor
+    like 1e-15 would not be, and an ABSOLUTE tolerance anywhere would be wrong at these magnitudes.
+  * meshes of extent 1e-6 .. 1e-9: a linearisation point with O(1) DOFs has gradients of 1e9 there; the closed-form
+    derivative of e.g. the minimal-surface term then cancels to a factor |grad u|^2 (in 1-D completely) and is no
+    reference any more, and a finite-difference step that resolves such cells drowns in rounding.  nl-magnitude
+    therefore linearises the geometrically similar problem (DOFs times the length factor: same gradients as on the
+    unscaled mesh) and uses -F and the hand-linearised matrix only; on composite layouts additionally block by block,
+    each block relative to its own largest reference entry (blocks differ by powers of the length unit).
   * with the 3x3 determinant defect present, every reference for a 3-D integrand that uses `det` disagrees; such
     witnesses are classified by recomputing the reference with a model of the defect (det - 2 A01 A12 A20) and
     demanding agreement with *that* to 1e-9 / 1e-6 - anything else stays an unclassified violation.
@@ -66,13 +86,21 @@ RULE = ("Part A: random small meshes of every cell kind (renumbered, locally per
         "is non-trivial iff the Jacobians at two linearisation points differ (really nonlinear), linear-clause "
         "cases iff A != 0.  Part B: every public helper of both modules x n in {2,3} x trailing shapes "
         "(), (k,), (nel,nq), (a,b,c) x memory layouts x data types (complex128, float32, int64, field objects); key = "
-        "(module, helper, n, #trailing axes)")
+        "(module, helper, n, #trailing axes).  Magnitudes: integrand factor 1 / 2^-60 / 2^20 / 2^-40 rotating with the "
+        "case index in every Part-A family, exact homogeneity and meshes scaled by 2^-20 / 2^-30 in nl-magnitude "
+        "(key = (factor, layout, terms, form kind)).  Process state: the JAX helpers before and after the first "
+        "assembly of a new interpreter (key = (phase, helper, n, #trailing axes))")
 ASSUMPTIONS = [
     "ordinary LinearForm/BilinearForm assembly, Basis.interpolate and quadrature are trusted here (they are the "
     "subject of C01/C02); both sides of every comparison use the same basis object and quadrature",
     "the finite-difference oracle sees errors above 1e-6 of max|J|; smaller ones are left to the hand-linearised "
     "oracle (1e-10)",
     "MortarFacetBasis is not exercised (CompositeBasis as in docs/examples/ex51.py is: family nl-compositebasis)",
+    "helpers-fresh-process: the new interpreter is sys.executable -B with PYTHONPATH = $RV_REPO, the harness and its "
+    ".deps and the environment of the check minus JAX_ENABLE_X64; it imports the harness modules (which do not import "
+    "JAX - verified per run, otherwise the case is dropped and the run is INCONCLUSIVE) and then skfem.autodiff.helpers",
+    "magnitudes are powers of two (2^-60, 2^-40, 2^20; meshes times 2^-20, 2^-30): other factors are covered only in "
+    "so far as the library treats them like these",
 ]
 TRACK = ["skfem.autodiff:NonlinearForm._assemble", "skfem.autodiff:NonlinearForm.assemble",
          "skfem.autodiff:NonlinearForm.elemental",
@@ -85,7 +113,8 @@ TRACK = ["skfem.autodiff:NonlinearForm._assemble", "skfem.autodiff:NonlinearForm
 REQUIRED_MONITORS = ["compositebasis-equals-composite-element", "rhs-is-minus-residual", "jacobian-vs-finite-differences", "jacobian-vs-hand-linearised",
                      "linear-reduces-to-ordinary-assembly", "x-none-is-zero", "elemental-equals-assemble",
                      "output-structure", "helper-np-definition", "helper-jax-definition", "helper-jax-equals-np",
-                     "helper-field-definition", "helper-tables-cover-exports", "jax-float64"]
+                     "helper-field-definition", "helper-tables-cover-exports", "jax-float64",
+                     "jacobian-scales-with-integrand"]
 REQUIRED_REACH = ["hessian-path", "composite-x-tuple", "kwargs-normalised", "facet-basis", "second-order-mesh",
                   "cell-subset", "jax-det-3x3", "jax-det-2x2", "jax-mul-matmat", "jax-mul-matvec",
                   "jax-prod-3", "np-inv-3x3", "np-inv-2x2", "np-curl-3d", "np-curl-2d-scalar", "np-curl-2d-vector",
@@ -100,12 +129,38 @@ REQUIRED_REACH += ["kwargs:pre-interpolated-field", "kwargs:2d-array", "kwargs:d
 REQUIRED_REACH += ["energy:" + v for v in ("scalar", "vector", "scalar+scalar", "vector+scalar", "hess", "facet")]
 REQUIRED_REACH += ["compositebasis"] + ["helper-dtype:" + v for v in ("complex128", "float32", "int64", "field")]
 REQUIRED_REACH += ["x:" + c for c in ("keyword", "positional", "float32", "int64", "strided", "readonly")]
+# integrand / mesh magnitudes (every reference oracle at 2^-60, 2^-40, 2^20; exact homogeneity; meshes of 1e-6 .. 1e-9 extent)
+REQUIRED_REACH += ["magnitude:" + m for m in ("2^-60", "2^-40", "2^20", "mesh*2^-30")]
+REQUIRED_REACH += ["linear-at-magnitude:" + m for m in ("2^-60", "2^-40", "2^20")]
+REQUIRED_REACH += ["scaling:" + m for m in ("2^-60", "2^-40", "2^20", "residual", "energy", "linear")]
+REQUIRED_REACH += ["blockwise-on-scaled-mesh"]
+# JAX helpers and the first assembly in a new interpreter
+REQUIRED_REACH += ["fresh-process:helpers:before-assembly", "fresh-process:helpers:after-assembly",
+                   "fresh-process:first-assembly"]
 
 NMAX = 150          # dense finite differences only up to this many unknowns
 RT_RHS = 1e-11      # relative to the assembled absolute residual density
 RT_HAND = 1e-10     # relative to max|J_ref|
 RT_FD = 1e-6        # relative to max|J_fd|
 RT_LIN = 1e-12
+RT_SCALING = 1e-13  # J(c F) against c J(F), c a power of two: relative to max|c J(F)|
+RT_BLOCK = 1e-9     # one (test component, trial component) block on a scaled mesh, relative to max|that block of J_ref|
+
+# Magnitudes of the integrand (the same problem in other physical units: a permeability of 1e-15 m^2, lengths in
+# micrometres, stiffnesses in Pa).  Powers of two, so that c * (reference density) is the exactly scaled reference and
+# J(c F) = c J(F) holds to the last bit in exact-rounding arithmetic; about 1e-18, 1e-12 and 1e6.
+MAGNITUDES = {"2^-60": 2.0 ** -60, "2^-40": 2.0 ** -40, "2^20": 2.0 ** 20}
+MAG_ROT = (None, "2^-60", "2^20", None, "2^-40")
+
+
+def magnitude(ctx, k, reach="magnitude:"):
+    """(factor or None, label): systematic rotation with the case index (phase shifted every period so that it does
+    not stay locked to the other rotations of period 2, 3, 4, 6)."""
+    name = MAG_ROT[(k + k // len(MAG_ROT)) % len(MAG_ROT)]
+    if name is None:
+        return None, "1"
+    ctx.reached(reach + name)
+    return MAGNITUDES[name], name
 
 
 # ===================================================================== element layouts
@@ -213,7 +268,7 @@ def small_mesh(ctx, rng, kind, maxcells, tensor=False, affine=False):
     raise Skip("no-small-mesh")
 
 
-def make_basis(ctx, rng, kind, rec, maxcells, facet=None, order2=False, subset=False, intorder=None):
+def make_basis(ctx, rng, kind, rec, maxcells, facet=None, order2=False, subset=False, intorder=None, mesh_scale=None):
     import skfem
     needs_affine = rec.mesh_req in ("affine", "axis-parallel")
     mc = small_mesh(ctx, rng, kind, maxcells, tensor=rec.mesh_req == "axis-parallel", affine=needs_affine)
@@ -223,6 +278,12 @@ def make_basis(ctx, rng, kind, rec, maxcells, facet=None, order2=False, subset=F
         mc = G.second_order(rng, mc)
         ctx.reached("second-order-mesh")
     mesh = mc.mesh
+    if mesh_scale is not None:
+        # the same (first-order) mesh in other length units: coordinates are dyadic rationals and the scale is a power
+        # of two, so the scaled coordinates are exact
+        mesh = type(mesh)(np.asarray(mesh.p) * mesh_scale, np.asarray(mesh.t))
+        mc = G.MeshCase(mesh, mc.kind, 1, dict(mc.desc, scaled_by=float(mesh_scale)), affine_cells=mc.affine_cells,
+                        straight=mc.straight, planar_faces=mc.planar_faces)
     kw = {}
     if intorder is None and kind == "tet" and "Mini" in rec.name:
         intorder = 4   # default order 2*maxdeg is beyond the tetrahedral tables for the bubble (degree 4)
@@ -358,25 +419,35 @@ def representable(x, sp, prob, which):
 class Problem:
     """One integrand (sum of terms with coefficients) on one basis: the form under judgement + references."""
 
-    def __init__(self, basis, terms, Ps, kwargs, energy=False, spelling=None):
+    def __init__(self, basis, terms, Ps, kwargs, energy=False, spelling=None, factor=None):
         import skfem
         self.basis, self.terms, self.Ps, self.kw, self.energy = basis, terms, Ps, kwargs, energy
+        # `factor` (None or a power of two) multiplies the whole integrand - the JAX one and both references alike:
+        # the same problem in other physical units.  Every oracle of judge() is relative to the magnitude of its
+        # reference, so a case judged at 2^-60 demands exactly what the case at 1 demands.
+        self.factor = factor
+        odd = bool((spelling or 0) % 2)
         self.n = n = ncomp(basis)
         self.dim = (basis.mesh if hasattr(basis, "mesh") else basis.bases[0].mesh).dim()
         tp = list(zip(terms, Ps))
+
+        def scaled(out):
+            if factor is None:
+                return out
+            return factor * out if odd else out * factor      # (a Python float on either side of a JAX array)
 
         if energy:
             def jxform(*a):
                 out = 0.
                 for t, P in tp:
                     out = out + t.jx(a[:n], a[-1], P)
-                return out
+                return scaled(out)
         else:
             def jxform(*a):
                 out = 0.
                 for t, P in tp:
                     out = out + t.jx(a[:n], a[n:2 * n], a[-1], P)
-                return out
+                return scaled(out)
         # the construction spelling rotates with the case index (spelling=None: the plain one)
         self.construction, self.nl = build_form(jxform, energy, 0 if spelling is None else spelling)
         self.xspelling = 0 if spelling is None else (spelling + spelling // len(X_SPELLINGS)) % len(X_SPELLINGS)
@@ -405,6 +476,7 @@ class Problem:
         """F(x) by ordinary LinearForm assembly of the NumPy reference density."""
         U = self.fields(x)
         tp = self._tp
+        c = 1.0 if self.factor is None else self.factor
 
         def lf(*a):
             V, w = nfs(a[:-1]), a[-1]
@@ -412,6 +484,7 @@ class Problem:
             for t, P in tp:
                 fn = getattr(t, which, None) or t.res
                 out = out + fn(U, V, w, P)
+            out = c * out
             return np.abs(out) if absolute else out
         return self._skfem.LinearForm(lf).assemble(self.basis, **self.kw)
 
@@ -422,13 +495,14 @@ class Problem:
         U = self.fields(x)
         tp = self._tp
         n = self.n
+        c = 1.0 if self.factor is None else self.factor
 
         def bf(*a):
             D, V, w = nfs(a[:n]), nfs(a[n:2 * n]), a[-1]
             out = 0.
             for t, P in tp:
                 out = out + t.jac(U, D, V, w, P)
-            return out
+            return c * out
         return self._skfem.BilinearForm(bf)
 
     def jac_fd(self, x, which="res"):
@@ -730,11 +804,12 @@ def fam_residual(layout_group, poolname):
         Ps = [t.coef(rng) for t in terms]
         kw = kwargs_for(rng, basis, terms)
         kwargs_reach(ctx, basis, kw, layout)
-        prob = Problem(basis, terms, Ps, kw, spelling=k)
+        factor, mag = magnitude(ctx, k)
+        prob = Problem(basis, terms, Ps, kw, spelling=k, factor=factor)
         if prob.n > 1:
             ctx.reached("composite-x-tuple")
         tag = {"layout": layout, "elem": rec.name, "mesh": type(mesh).__name__, "desc": mc.desc,
-               "basis": type(basis).__name__}
+               "basis": type(basis).__name__, "factor": mag}
         run_problem(ctx, rng, k, prob, tag)
     return fn
 
@@ -748,13 +823,14 @@ def fam_energy(ctx, k):
     nb_guess = {"line": 6, "tri": 8, "quad": 6, "tet": 5, "hex": 2, "wedge": 3}[kind]
     mc, mesh, basis = make_basis(ctx, rng, kind, rec, ctx.scale(nb_guess, 3 * nb_guess), order2=(k % 6 == 5))
     terms = pick_terms(rng, "energy", layout, mesh.dim(), kmax=ctx.scale(1, 2), energy=True, rot=k // len(ENERGY_LAYOUTS))
-    prob = Problem(basis, terms, [t.coef(rng) for t in terms], {}, energy=True, spelling=k)
+    factor, mag = magnitude(ctx, k)
+    prob = Problem(basis, terms, [t.coef(rng) for t in terms], {}, energy=True, spelling=k, factor=factor)
     ctx.reached("hessian-path")
     ctx.reached("energy:" + layout)
     if prob.n > 1:
         ctx.reached("composite-x-tuple")
     tag = {"layout": "energy:" + layout, "elem": rec.name, "mesh": type(mesh).__name__, "desc": mc.desc,
-           "basis": type(basis).__name__}
+           "basis": type(basis).__name__, "factor": mag}
     run_problem(ctx, rng, k, prob, tag)
 
 
@@ -771,12 +847,13 @@ def fam_facet(ctx, k):
     Ps = [t.coef(rng) for t in terms]
     kw = kwargs_for(rng, basis, terms)
     kwargs_reach(ctx, basis, kw, "facet")
-    prob = Problem(basis, terms, Ps, kw, energy=energy, spelling=k)
+    factor, mag = magnitude(ctx, k)
+    prob = Problem(basis, terms, Ps, kw, energy=energy, spelling=k, factor=factor)
     if energy:
         ctx.reached("hessian-path")
         ctx.reached("energy:facet")
     tag = {"layout": "facet:" + layout, "elem": rec.name, "mesh": type(mesh).__name__, "desc": mc.desc,
-           "basis": type(basis).__name__}
+           "basis": type(basis).__name__, "factor": mag}
     run_problem(ctx, rng, k, prob, tag)
 
 
@@ -802,9 +879,10 @@ def fam_compositebasis(ctx, k):
     Ps = [t.coef(rng) for t in terms]
     kw = kwargs_for(rng, cb, terms)
     kwargs_reach(ctx, cb, kw, "compositebasis")
-    prob = Problem(cb, terms, Ps, kw, spelling=k)
+    factor, mag = magnitude(ctx, k)
+    prob = Problem(cb, terms, Ps, kw, spelling=k, factor=factor)
     tag = {"layout": "compositebasis:" + layout, "elem": rec.name, "mesh": type(mesh).__name__, "desc": mc.desc,
-           "basis": spelled, "construction": prob.construction}
+           "basis": spelled, "construction": prob.construction, "factor": mag}
     N = cb.N
     ctx.check("output-structure", N == eb.N and cb.Nbfun == eb.Nbfun, mech="compositebasis-size", N=int(N), want=int(eb.N), **tag)
     which, x = lin_point(ctx, rng, prob, ("unit", "large")[k % 2])
@@ -851,10 +929,11 @@ def fam_linear(ctx, k):
     mc, mesh, basis = make_basis(ctx, rng, kind, rec, ctx.scale(nb_guess, 3 * nb_guess), order2=(k % 6 == 5))
     poolname = "hess" if layout == "hess" else ("composite" if "+" in layout else layout)
     terms = pick_terms(rng, poolname, layout, mesh.dim(), kmax=3, only_linear=True)
-    prob = Problem(basis, terms, [t.coef(rng) for t in terms], {}, spelling=k)
+    factor, mag = magnitude(ctx, k, reach="linear-at-magnitude:")
+    prob = Problem(basis, terms, [t.coef(rng) for t in terms], {}, spelling=k, factor=factor)
     names = prob.names()
     tag = {"layout": "linear:" + layout, "elem": rec.name, "mesh": type(mesh).__name__, "desc": mc.desc,
-           "construction": prob.construction}
+           "construction": prob.construction, "factor": mag}
     N = basis.N
     A = prob.jac_hand(np.zeros(N))          # ordinary BilinearForm assembly (independent of the point)
     b = -prob.residual(np.zeros(N))         # ordinary LinearForm assembly of the load
@@ -873,6 +952,114 @@ def fam_linear(ctx, k):
     if sA > 0:
         ctx.nontrivial("linear:" + layout, names, type(mesh).__name__)
     ctx.sample(dict(tag, terms=names, N=int(N), maxA=sA), per_family=2)
+
+
+MAGNITUDE_LAYOUTS = ["scalar", "vector", "scalar+scalar", "vector+scalar"]
+MESH_SCALES = (("mesh*2^-30", 2.0 ** -30), ("mesh*2^-20", 2.0 ** -20))
+
+
+def scaling_mech(got, ref, what):
+    """Mechanism of a failed J(c F) == c J(F) comparison: narrow name where the differing entries were dropped."""
+    got, ref = np.asarray(got), np.asarray(ref)
+    bad = np.abs(got - ref) > RT_SCALING * float(np.abs(ref).max())
+    if bad.any() and not got[bad].any():
+        return "scaled-integrand:" + what + ":entries-of-small-magnitude-are-zero"
+    return "scaled-integrand:" + what + ":differs"
+
+
+def fam_magnitude(ctx, k):
+    """The same problem in other units.  Five modes rotate with the case index:
+      0, 1  residual form times 2^-60 / 2^20;  3  energy form (hessian=True) times 2^-40;
+      4     integrand linear in the unknown times 2^-60 / 2^20: the matrix is c * (ordinarily assembled matrix);
+      2     the mesh in other length units (coordinates times 2^-30 / 2^-20), a single term of the grammar, the
+            linearisation point of the geometrically similar problem (DOFs times the same factor).
+    Modes 0, 1, 3, 4: every oracle of judge() at that magnitude (all tolerances are relative to the magnitude of the
+    reference) and the exact homogeneity J(c F) = c J(F), rhs(c F) = c rhs(F) against a second NonlinearForm of the
+    unscaled integrand (c is a power of two: both sides carry the same rounding errors, scaled).  Mode 2: -F and the
+    hand-linearised matrix (finite differences are useless there: a DOF step that resolves 1e-9 wide cells drowns in
+    rounding)."""
+    rng = ctx.rng()
+    mode, rnd = k % 5, k // 5
+    energy = mode == 3
+    linear = mode == 4
+    if mode == 2:
+        label, mesh_scale = MESH_SCALES[rnd % 2]
+        factor = None
+    else:
+        label = {0: "2^-60", 1: "2^20", 3: "2^-40", 4: ("2^-60", "2^20")[rnd % 2]}[mode]
+        factor, mesh_scale = MAGNITUDES[label], None
+    group = ["scalar", "vector", "vector+scalar"] if linear else MAGNITUDE_LAYOUTS
+    layout, kind, rec = choose(ctx, rnd + mode, group, ctx.scale(8, 20))
+    nb_guess = {"line": 5, "tri": 6, "quad": 4, "tet": 4, "hex": 2, "wedge": 2}[kind]
+    mc, mesh, basis = make_basis(ctx, rng, kind, rec, ctx.scale(nb_guess, 3 * nb_guess), mesh_scale=mesh_scale)
+    poolname = "energy" if energy else ("composite" if "+" in layout else layout)
+    terms = pick_terms(rng, poolname, layout, mesh.dim(), kmax=1 if mode == 2 else 2, only_linear=linear, energy=energy,
+                       rot=rnd)
+    Ps = [t.coef(rng) for t in terms]
+    kw = kwargs_for(rng, basis, terms)
+    prob = Problem(basis, terms, Ps, kw, energy=energy, spelling=k, factor=factor)
+    names = prob.names()
+    tag = {"layout": "magnitude:" + layout, "elem": rec.name, "mesh": type(mesh).__name__, "desc": mc.desc,
+           "basis": type(basis).__name__, "magnitude": label, "construction": prob.construction}
+    which, x = lin_point(ctx, rng, prob, ("unit", "large")[rnd % 2])
+    x = representable(x, prob.xspelling, prob, which)
+    if mesh_scale is not None:
+        if not any(t.positive for t in terms):
+            x = x * mesh_scale              # u(s X) = s U(X): same gradients as on the unscaled mesh
+        Jd = judge(ctx, prob, x, which, tag, fd=False)
+        if Jd is not None:
+            ctx.reached("magnitude:" + label)
+            if float(np.abs(Jd).max()) > 0:
+                ctx.nontrivial("magnitude", label, layout, names)
+            if prob.n > 1 and all(t.jac is not None for t in terms):
+                # On a mesh of tiny extent the blocks of a coupled system differ by powers of the length unit
+                # (diffusion ~ h^(d-2), gradient coupling ~ h^(d-1), reaction ~ h^d): judged against max|J| the small
+                # blocks would be invisible.  Every (test component, trial component) block is the integral of its own
+                # density, so its natural scale is its own largest entry.  (Blocks that vanish in the reference are
+                # left to the global comparison above.)
+                Jh = prob.jac_hand(x).toarray()
+                idx = [np.asarray(i) for i in basis.split_indices()]
+                for a, ia in enumerate(idx):
+                    for b, ib in enumerate(idx):
+                        ref, got = Jh[np.ix_(ia, ib)], Jd[np.ix_(ia, ib)]
+                        sb = float(np.abs(ref).max()) if ref.size else 0.0
+                        if sb == 0.0:
+                            continue
+                        ctx.close("jacobian-vs-hand-linearised", got, ref, rtol=RT_BLOCK, scale=sb,
+                                  mech=lambda got=got: ("jac-hand-blockwise:block-of-small-magnitude-is-zero" if not got.any()
+                                                        else "jac-hand-blockwise:" + names),
+                                  terms=names, point=which, block=[a, b], block_max=sb, matrix_max=float(np.abs(Jh).max()),
+                                  **tag)
+                        ctx.reached("blockwise-on-scaled-mesh")
+        ctx.sample(dict(tag, terms=names, N=int(basis.N), maxJ=None if Jd is None else float(np.abs(Jd).max())), per_family=2)
+        return
+    # (finite differences at these magnitudes run in every other Part-A family; here only in the thorough tier)
+    Jd = judge(ctx, prob, x, which, tag, fd=ctx.thorough and rnd % 3 == 0)
+    if Jd is None:
+        return
+    rc = prob.last[1]
+    # the unscaled integrand: a second form object, same construction spelling, same call
+    ref = Problem(basis, terms, Ps, kw, energy=energy, spelling=k, factor=None)
+    J1, r1 = ref.call(x)
+    J1 = np.asarray(J1.toarray())
+    sJ = factor * float(np.abs(J1).max())
+    ctx.close("jacobian-scales-with-integrand", Jd, factor * J1, rtol=RT_SCALING, scale=sJ,
+              mech=lambda: scaling_mech(Jd, factor * J1, "jacobian"), terms=names, point=which,
+              worst=lambda: worst_entry(Jd, factor * J1), **tag)
+    x0 = np.zeros(basis.N) if x is None else x
+    sF = factor * float(ref.residual(x0, absolute=True).max())
+    ctx.close("jacobian-scales-with-integrand", rc, factor * r1, rtol=RT_SCALING, scale=sF,
+              mech=lambda: scaling_mech(rc, factor * r1, "rhs"), terms=names, point=which, **tag)
+    ctx.reached("scaling:" + ("energy" if energy else "linear" if linear else "residual"))
+    ctx.reached("scaling:" + label)
+    if linear:
+        A = ref.jac_hand(np.zeros(basis.N)).toarray()       # ordinary BilinearForm assembly of the unscaled density
+        sA = float(np.abs(A).max())
+        ctx.close("linear-reduces-to-ordinary-assembly", Jd, factor * A, rtol=RT_LIN, scale=factor * sA,
+                  mech="linear-matrix-at-magnitude:" + names, terms=names, point=which, **tag)
+    if sJ > 0:
+        ctx.nontrivial("magnitude", label, layout, names, "energy" if energy else "linear" if linear else "residual")
+    ctx.sample(dict(tag, terms=names, coefficients=Ps, N=int(basis.N), maxJ=float(np.abs(Jd).max())), per_family=2)
 
 
 def fam_directed(ctx, k):
@@ -1061,7 +1248,7 @@ def fam_reuse(ctx, k):
 
 # ===================================================================== Part B: helpers
 from .c20_helpers import (fam_helpers_np, fam_helpers_jax, fam_helpers_fields, fam_helper_exports, fam_edge,  # noqa: E402
-                          fam_helper_dtypes)
+                          fam_helper_dtypes, fam_fresh_process)
 
 SCALAR_GROUP = ["scalar"]
 VECTOR_GROUP = ["vector"]
@@ -1070,13 +1257,16 @@ COMPOSITE_GROUP = ["vector+scalar", "scalar+scalar", "hdiv+p0", "hcurl+scalar", 
 FAMILIES = [
     Family("nl-scalar", fam_residual(SCALAR_GROUP, "scalar"), quick=14, thorough=240, budget={"quick": 40, "thorough": 500}),
     Family("nl-vector", fam_residual(VECTOR_GROUP, "vector"), quick=9, thorough=144, budget={"quick": 40, "thorough": 500}),
-    Family("nl-composite", fam_residual(COMPOSITE_GROUP, "composite"), quick=10, thorough=160,
-           budget={"quick": 40, "thorough": 500}),
+    # quick=11: the third visit of vector+scalar (k=10) is led by its keyword-parameter term whatever the seed draws
+    # (reach point kwargs:layout:vector+scalar; with 10 cases seeds 3, 5, 7 never met it)
+    Family("nl-composite", fam_residual(COMPOSITE_GROUP, "composite"), quick=11, thorough=160,
+           budget={"quick": 45, "thorough": 500}),
     Family("nl-hess", fam_residual(["hess"], "hess"), quick=2, thorough=32, budget={"quick": 20, "thorough": 400}),
     Family("nl-compositebasis", fam_compositebasis, quick=3, thorough=48, budget={"quick": 20, "thorough": 400}),
     Family("nl-energy", fam_energy, quick=7, thorough=140, budget={"quick": 30, "thorough": 500}),
     Family("nl-facet", fam_facet, quick=6, thorough=96, budget={"quick": 20, "thorough": 400}),
     Family("nl-linear", fam_linear, quick=8, thorough=128, budget={"quick": 20, "thorough": 400}),
+    Family("nl-magnitude", fam_magnitude, quick=5, thorough=120, budget={"quick": 25, "thorough": 400}),
     Family("nl-reuse", fam_reuse, quick=8, thorough=160, budget={"quick": 30, "thorough": 400}),
     Family("nl-complex", fam_complex, quick=8, thorough=160, budget={"quick": 30, "thorough": 400}),
     Family("nl-directed", fam_directed, quick=4, thorough=64, budget={"quick": 15, "thorough": 300}),
@@ -1086,4 +1276,5 @@ FAMILIES = [
     Family("helpers-dtypes", fam_helper_dtypes, quick=4, thorough=256, budget={"quick": 15, "thorough": 200}),
     Family("helper-exports", fam_helper_exports, quick=1, thorough=1),
     Family("helpers-edge", fam_edge, quick=4, thorough=16, budget={"quick": 15, "thorough": 60}),
+    Family("helpers-fresh-process", fam_fresh_process, quick=1, thorough=12, budget={"quick": 60, "thorough": 300}),
 ]
